@@ -512,6 +512,8 @@ def run(chk):
     common.rule_instance_state(chk, "C02", [("_action", "Action")])
     common.rule_defaults(chk, "C02", modules=("_action", "_message", "_output"))
     c06.rule_once(chk)  # a serialized position continued twice duplicates every level below it
+    from . import c13
+    c13.rule_copy(chk)  # what a destination received is a private copy: a dict reused by a later emission cannot turn a delivered message into a duplicate
     from . import c08
     c08.rule_fanout(chk)   # what a destination that accepted every message observes while others fail
     c08.rule_report(chk)
